@@ -98,6 +98,17 @@ func (m *MMap) Size() (int64, error) {
 }
 
 func (m *MMap) ResetFileSize() error {
+	// 映射区域不能超出文件大小, 否则后续访问超出部分会触发 SIGBUS
+	// 先解除映射, 下次读写时按需重新扩展文件并映射
+	if m.activeMap != nil {
+		if err := m.activeMap.Flush(); err != nil {
+			return err
+		}
+		if err := m.activeMap.Unmap(); err != nil {
+			return err
+		}
+	}
+	m.endOff = 0
 	return m.file.Truncate(m.virtualSize)
 }
 
